@@ -31,6 +31,12 @@
   * the re-entrant `WriteProperty(…, priority=6)` never nests deeper than once:
         `wp_fuel_irrelevant` (so the `recursion` answer of the fuel-0 case is unreachable
         from `step`, which starts with depth 8)
+  * user monitors of the present value that command the object again from inside
+    their callback (callbacks as data, `Rule`; nested `WriteProperty` = nested `wpM`):
+        `wpM_inv`, `wpM_accept_inv` (when the outermost write returns, present value =
+        winner, whatever the callbacks did), `present_is_winner_monitors`,
+        `wpM_refused_unchanged`; `wpM_nil` / `stepM_nil`: without user monitors `wpM`
+        IS `wp`, so all theorems above speak about the function the driver runs
   * the generated class table (20 classes, priority-value choice, MinOnOff on the
     binary ones, MRO override)                              → `table_*` (kernel `decide`)
 -/
@@ -915,6 +921,20 @@ theorem accept_arms (cfg : Cfg V) (s0 : St V) (i : Nat) (x : Option V) (dl2 : Na
           | some e => simp [h0]
           | none => intro _; exact ⟨d, rfl⟩
 
+/-- a firing on a state whose slot 6 holds the present value, which is also the
+    winner of the other slots: the slot is released and nothing else happens -/
+theorem fire_settled (cfg : Cfg V) (s1 : St V) (f : Nat → Option V) (t2 dl2 : Nat)
+    (hs : s1.slots = setSlot f 6 (some (winner cfg (setSlot f 6 none))))
+    (hp : s1.present = winner cfg (setSlot f 6 none))
+    (hd : s1.deadline = some dl2) (hdl : dl2 ≤ max s1.now t2) :
+    step cfg s1 (.tick t2) =
+      ({ slots := setSlot f 6 none, present := s1.present, now := max s1.now t2,
+         deadline := none }, none) := by
+  rw [step_tick, hd]
+  simp only [hdl, if_true]
+  unfold accept
+  simp [hs, hp, setSlot_setSlot]
+
 /-- **the release cascade stops after two firings**: if the tick that releases slot 6
     changes the present value and thereby starts a hold for the new state, the tick
     that ends *that* hold finds the present value already equal to the winner —
@@ -924,33 +944,22 @@ theorem second_fire_quiescent (cfg : Cfg V) (s : St V) (t1 t2 dl dl2 : Nat)
     (hd : s.deadline = some dl) (hdl : dl ≤ max s.now t1)
     (hd2 : (step cfg s (.tick t1)).1.deadline = some dl2)
     (hdl2 : dl2 ≤ max (step cfg s (.tick t1)).1.now t2) :
-    let r := step cfg (step cfg s (.tick t1)).1 (.tick t2)
-    r.1.slots 6 = none ∧ r.1.deadline = none ∧ r.2 = none ∧
-    r.1.present = (step cfg s (.tick t1)).1.present := by
+    (step cfg (step cfg s (.tick t1)).1 (.tick t2)).1.slots 6 = none ∧
+    (step cfg (step cfg s (.tick t1)).1 (.tick t2)).1.deadline = none ∧
+    (step cfg (step cfg s (.tick t1)).1 (.tick t2)).2 = none ∧
+    (step cfg (step cfg s (.tick t1)).1 (.tick t2)).1.present = (step cfg s (.tick t1)).1.present := by
   have h1 : step cfg s (.tick t1) =
       accept cfg { s with now := max s.now t1, deadline := none } 6 none := by
     rw [step_tick, hd]; simp [hdl]
-  rw [h1] at hd2 hdl2 ⊢
-  obtain ⟨d, ha⟩ := accept_arms cfg { s with now := max s.now t1, deadline := none } 6 none dl2 rfl hd2
-  rw [ha] at hd2 hdl2 ⊢
-  simp only [] at hd2 hdl2 ⊢
-  have hd2' : max s.now t1 + 1000000 * (d + 1) = dl2 := by simpa using hd2
-  have hfire : max s.now t1 + 1000000 * (d + 1) ≤ max (max s.now t1) t2 := by omega
-  rw [step_tick]
-  simp only [hfire, if_true]
-  have hacc : accept cfg
-      ({ slots := setSlot (setSlot s.slots 6 none) 6 (some (winner cfg (setSlot s.slots 6 none))),
-         present := winner cfg (setSlot s.slots 6 none),
-         now := max (max s.now t1) t2,
-         deadline := none } : St V) 6 none =
-      ({ slots := setSlot s.slots 6 none,
-         present := winner cfg (setSlot s.slots 6 none),
-         now := max (max s.now t1) t2,
-         deadline := none }, none) := by
-    unfold accept
-    simp [setSlot_setSlot]
-  rw [hacc]
-  simp
+  obtain ⟨d, ha⟩ := accept_arms cfg { s with now := max s.now t1, deadline := none } 6 none dl2 rfl
+    (by rw [← h1]; exact hd2)
+  have hs1 : (step cfg s (.tick t1)).1.slots =
+      setSlot s.slots 6 (some (winner cfg (setSlot s.slots 6 none))) := by
+    rw [h1, ha]; exact setSlot_setSlot _ _ _ _
+  have hp1 : (step cfg s (.tick t1)).1.present = winner cfg (setSlot s.slots 6 none) := by
+    rw [h1, ha]
+  rw [fire_settled cfg (step cfg s (.tick t1)).1 s.slots t2 dl2 hs1 hp1 hd2 hdl2]
+  exact ⟨by show setSlot s.slots 6 none 6 = none; exact setSlot_same _ _ _, rfl, rfl, rfl⟩
 
 /-- **a command never disarms the timer**: whatever is written (also an override at
     priority 1..5 that flips the state to one without a minimum time), the release
@@ -1016,6 +1025,191 @@ example :
     (s2.present = 0 ∧ s2.slots 6 = some 0 ∧ s2.deadline = some 13000000) ∧
     (s3.slots 6 = some 0) ∧ (s4.slots 6 = none ∧ s4.deadline = none ∧ s4.present = 0) := by
   decide
+
+/-! ## user monitors that command the object from inside the callback (wave 5) -/
+
+theorem runRules_inv (cfg : Cfg V)
+    (call : MSt V → Option V → Option Int → MSt V × Option CErr)
+    (hcall : ∀ m v p, Inv cfg m.st → Inv cfg (call m v p).1.st)
+    (new : V) (rs : List (Rule V)) (k : Nat) (m : MSt V) (h : Inv cfg m.st) :
+    Inv cfg (runRules call new rs k m).1.st := by
+  induction rs generalizing k m with
+  | nil => exact h
+  | cons r rs ih =>
+    simp only [runRules]
+    by_cases hf : r.fires new (leftAt m.left k) = true
+    · simp only [hf, if_true]
+      have h1 := hcall { m with left := decrAt m.left k } r.value r.prio h
+      cases hc : call { m with left := decrAt m.left k } r.value r.prio with
+      | mk m' e =>
+        rw [hc] at h1
+        cases e with
+        | some e => exact h1
+        | none => exact ih (k + 1) m' h1
+    · simp only [hf]
+      exact ih (k + 1) m h
+
+theorem minOnOffMon_inv (cfg : Cfg V)
+    (call : MSt V → Option V → Option Int → MSt V × Option CErr)
+    (hcall : ∀ m v p, Inv cfg m.st → Inv cfg (call m v p).1.st)
+    (old new : V) (m : MSt V) (h : Inv cfg m.st) :
+    Inv cfg (minOnOffMon cfg call old new m).1.st := by
+  unfold minOnOffMon
+  by_cases hmo : cfg.minOnOff = false
+  · simp only [hmo, if_true]; exact h
+  · simp only [hmo]
+    by_cases hsame : old = new
+    · simp only [hsame, if_true]; exact h
+    · simp only [hsame, if_false]
+      cases holdDelay cfg new with
+      | none => exact h
+      | some d =>
+        cases d with
+        | zero => exact h
+        | succ d =>
+          simp only []
+          have h3 := hcall m (some new) (some 6) h
+          cases hc : call m (some new) (some 6) with
+          | mk m3 e =>
+            rw [hc] at h3
+            cases e with
+            | some e => exact h3
+            | none => exact h3
+
+theorem monitors_inv (cfg : Cfg V) (rules : List (Rule V))
+    (call : MSt V → Option V → Option Int → MSt V × Option CErr)
+    (hcall : ∀ m v p, Inv cfg m.st → Inv cfg (call m v p).1.st)
+    (old new : V) (m : MSt V) (h : Inv cfg m.st) :
+    Inv cfg (monitors cfg rules call old new m).1.st := by
+  unfold monitors
+  have h1 := minOnOffMon_inv cfg call hcall old new m h
+  cases hc : minOnOffMon cfg call old new m with
+  | mk m3 e =>
+    rw [hc] at h1
+    cases e with
+    | some e => exact h1
+    | none => exact runRules_inv cfg call hcall new rules 0 m3 h1
+
+/-- a nested or outermost `WriteProperty` never breaks "present value = winner",
+    whatever the monitors do and however deep they nest (also when an exception
+    leaves the call) -/
+theorem wpM_inv (cfg : Cfg V) (rules : List (Rule V)) (fuel : Nat) (m : MSt V) (p : PropId)
+    (v : Option V) (ai pr : Option Int) (h : Inv cfg m.st) :
+    Inv cfg (wpM cfg rules fuel m p v ai pr).1.st := by
+  induction fuel generalizing m p v ai pr with
+  | zero => exact h
+  | succ fuel ih =>
+    rw [wpM]
+    cases target cfg p v ai pr with
+    | error e => exact h
+    | ok i =>
+      simp only []
+      by_cases hw : winner cfg (setSlot m.st.slots i v) = m.st.present
+      · simp only [hw, if_true]
+        exact hw.symm
+      · simp only [hw, if_false]
+        exact monitors_inv cfg rules _ (fun m' v' p' hm' => ih m' .presentValue v' none p' hm')
+          _ _ _ rfl
+
+/-- **the clause of the property, with monitors**: when a `WriteProperty` that got
+    past the checks returns — normally or with an exception raised inside a monitor —
+    the present value is the highest-priority non-null slot or the default, no
+    matter what the state was before and what the callbacks commanded meanwhile -/
+theorem wpM_accept_inv (cfg : Cfg V) (rules : List (Rule V)) (fuel : Nat) (m : MSt V) (p : PropId)
+    (v : Option V) (ai pr : Option Int) (i : Nat) (ht : target cfg p v ai pr = .ok i) :
+    Inv cfg (wpM cfg rules (fuel + 1) m p v ai pr).1.st := by
+  rw [wpM, ht]
+  simp only []
+  by_cases hw : winner cfg (setSlot m.st.slots i v) = m.st.present
+  · simp only [hw, if_true]
+    exact hw.symm
+  · simp only [hw, if_false]
+    exact monitors_inv cfg rules _
+      (fun m' v' p' hm' => wpM_inv cfg rules fuel m' .presentValue v' none p' hm') _ _ _ rfl
+
+/-- a refused write changes nothing, monitors or not -/
+theorem wpM_refused_unchanged (cfg : Cfg V) (rules : List (Rule V)) (fuel : Nat) (m : MSt V)
+    (p : PropId) (v : Option V) (ai pr : Option Int) (e : CErr)
+    (ht : target cfg p v ai pr = .error e) :
+    wpM cfg rules (fuel + 1) m p v ai pr = (m, some e) := by
+  rw [wpM, ht]
+
+theorem stepM_inv (cfg : Cfg V) (rules : List (Rule V)) (m : MSt V) (e : Event V)
+    (h : Inv cfg m.st) : Inv cfg (stepM cfg rules m e).1.st := by
+  cases e with
+  | write p v ai pr => exact wpM_inv cfg rules FUELM m p v ai pr h
+  | tick t =>
+    simp only [stepM]
+    cases hd : m.st.deadline with
+    | none => exact h
+    | some dl =>
+      simp only []
+      by_cases hdl : dl ≤ max m.st.now t
+      · simp only [hdl, if_true]
+        exact wpM_inv cfg rules FUELM _ _ _ _ _ h
+      · simp only [hdl, if_false]; exact h
+
+/-- **present_is_winner with user monitors**: after any event sequence on an object
+    whose presentValue monitors command it again from inside their callbacks -/
+theorem present_is_winner_monitors (cfg : Cfg V) (rules : List (Rule V)) (m : MSt V)
+    (evs : List (Event V)) (h : Inv cfg m.st) :
+    (runM cfg rules m evs).st.present = winner cfg (runM cfg rules m evs).st.slots := by
+  induction evs generalizing m with
+  | nil => exact h
+  | cons e es ih => exact ih (stepM cfg rules m e).1 (stepM_inv cfg rules m e h)
+
+/-- **conservative extension**: with no user monitors `wpM` is `wp` (so every theorem
+    about `wp` / `step` speaks about the function the driver runs) -/
+theorem wpM_nil (cfg : Cfg V) (fuel : Nat) (m : MSt V) (p : PropId) (v : Option V)
+    (ai pr : Option Int) :
+    wpM cfg [] fuel m p v ai pr =
+      ({ m with st := (wp cfg fuel m.st p v ai pr).1 }, (wp cfg fuel m.st p v ai pr).2) := by
+  induction fuel generalizing m p v ai pr with
+  | zero => rfl
+  | succ fuel ih =>
+    rw [wpM, wp]
+    cases target cfg p v ai pr with
+    | error e => rfl
+    | ok i =>
+      simp only []
+      by_cases hw : winner cfg (setSlot m.st.slots i v) = m.st.present
+      · simp [hw]
+      · have hw' : ¬ m.st.present = winner cfg (setSlot m.st.slots i v) := fun h => hw h.symm
+        simp only [hw, if_false, monitors, minOnOffMon]
+        by_cases hm : cfg.minOnOff = false
+        · simp [hm, runRules]
+        · simp only [hm, hw', if_false]
+          cases holdDelay cfg (winner cfg (setSlot m.st.slots i v)) with
+          | none => rfl
+          | some d =>
+            cases d with
+            | zero => simp [runRules]
+            | succ d =>
+              simp only []
+              rw [ih]
+              dsimp only
+              generalize wp cfg fuel _ _ _ _ _ = r
+              obtain ⟨s3, e⟩ := r
+              cases e with
+              | some e => rfl
+              | none => simp [runRules]
+
+theorem stepM_nil (cfg : Cfg V) (m : MSt V) (e : Event V) :
+    stepM cfg [] m e = ({ m with st := (step cfg m.st e).1 }, (step cfg m.st e).2) := by
+  cases e with
+  | write p v ai pr =>
+    simp only [stepM, step, FUELM, FUEL]
+    rw [wpM_nil, wp_fuel_irrelevant cfg 62, wp_fuel_irrelevant cfg 6]
+  | tick t =>
+    simp only [stepM, step, FUELM, FUEL]
+    cases m.st.deadline with
+    | none => rfl
+    | some dl =>
+      simp only []
+      by_cases hdl : dl ≤ max m.st.now t
+      · simp only [hdl, if_true]
+        rw [wpM_nil, wp_fuel_irrelevant cfg 62, wp_fuel_irrelevant cfg 6]
+      · simp only [hdl, if_false]
 
 /-! ## the generated class table (kernel evaluation; re-run whenever the code changes it) -/
 
